@@ -931,6 +931,7 @@ class Engine:
         end_time = self.global_time + interval
         emit_time = self.global_time + self.emit_step
         if self.global_time_precision is not None:
+            end_time = round(end_time, self.global_time_precision)
             emit_time = round(emit_time, self.global_time_precision)
 
         while self.global_time < end_time or force_complete:
